@@ -45,8 +45,13 @@ func (g *Graph) flags() *flagInfo {
 	g.flagsDone = true
 	info := g.F.Info()
 	isBool := func(t types.Type) bool {
-		b, ok := t.Underlying().(*types.Basic)
-		return ok && b.Kind() == types.Bool
+		switch u := t.Underlying().(type) {
+		case *types.Basic:
+			return u.Kind() == types.Bool
+		case *types.Interface, *types.Pointer:
+			return true // nil-ness flag: state 1 = non-nil, 2 = nil
+		}
+		return false
 	}
 	// candidate flags: bool locals declared inside this function's body (not in nested literals)
 	cand := map[types.Object]bool{}
@@ -130,6 +135,14 @@ func (g *Graph) flags() *flagInfo {
 			}
 			return ef
 		}
+		if tv, ok := info.Types[rhs]; ok && tv.IsNil() {
+			ef.kind = 2
+			return ef
+		}
+		if definitelyNonNil(info, rhs) {
+			ef.kind = 1
+			return ef
+		}
 		if so := objOf(rhs); so != nil {
 			ef.kind, ef.src = 3, index(so)
 		}
@@ -158,7 +171,7 @@ func (g *Graph) flags() *flagInfo {
 						continue
 					}
 					if len(s.Values) == 0 {
-						effs = append(effs, flagEffect{obj: index(o), kind: 2}) // zero value
+						effs = append(effs, flagEffect{obj: index(o), kind: 2}) // zero value: false / nil
 					} else if len(s.Values) == len(s.Names) {
 						effs = append(effs, effOf(o, s.Values[i]))
 					} else {
@@ -230,7 +243,7 @@ func (g *Graph) feasible(fi *flagInfo, b *cfgBlock, succ int, env flagEnv) bool 
 		switch x := e.(type) {
 		case *ast.Ident:
 			if o := info.Uses[x]; o != nil {
-				if i, ok := fi.idx[o]; ok {
+				if i, ok := fi.idx[o]; ok && isBoolObj(o) {
 					return env[i]
 				}
 			}
@@ -247,6 +260,30 @@ func (g *Graph) feasible(fi *flagInfo, b *cfgBlock, succ int, env flagEnv) bool 
 			return 0
 		case *ast.BinaryExpr:
 			switch x.Op {
+			case token.EQL, token.NEQ:
+				// v == nil / v != nil on a tracked nil-ness flag
+				var side ast.Expr
+				if tv, ok := info.Types[x.Y]; ok && tv.IsNil() {
+					side = x.X
+				} else if tv, ok := info.Types[x.X]; ok && tv.IsNil() {
+					side = x.Y
+				}
+				if id, ok := unparen(side).(*ast.Ident); ok && side != nil {
+					if o := info.Uses[id]; o != nil {
+						if i, ok := fi.idx[o]; ok && !isBoolObj(o) {
+							st := env[i] // 1 non-nil, 2 nil
+							if st == 0 {
+								return 0
+							}
+							isNil := st == 2
+							if (x.Op == token.EQL) == isNil {
+								return 1
+							}
+							return 2
+						}
+					}
+				}
+				return 0
 			case token.LAND:
 				a, b := ev(x.X), ev(x.Y)
 				if a == 2 || b == 2 {
@@ -276,4 +313,38 @@ func (g *Graph) feasible(fi *flagInfo, b *cfgBlock, succ int, env flagEnv) bool 
 		return succ == 1
 	}
 	return true
+}
+
+func isBoolObj(o types.Object) bool {
+	b, ok := o.Type().Underlying().(*types.Basic)
+	return ok && b.Kind() == types.Bool
+}
+
+// definitelyNonNil: expression forms whose value can never be nil — &T{…}, a composite literal or function
+// literal (boxed into an interface), and the error constructors of the standard library.
+func definitelyNonNil(info *types.Info, e ast.Expr) bool {
+	switch x := unparen(e).(type) {
+	case *ast.UnaryExpr:
+		if x.Op == token.AND {
+			_, ok := unparen(x.X).(*ast.CompositeLit)
+			return ok
+		}
+	case *ast.CompositeLit:
+		if t := info.TypeOf(x); t != nil {
+			switch t.Underlying().(type) {
+			case *types.Struct, *types.Array:
+				return true
+			}
+		}
+	case *ast.FuncLit:
+		return true
+	case *ast.CallExpr:
+		if se, ok := unparen(x.Fun).(*ast.SelectorExpr); ok {
+			if fn, ok := info.Uses[se.Sel].(*types.Func); ok && fn.Pkg() != nil {
+				full := fn.Pkg().Path() + "." + fn.Name()
+				return full == "fmt.Errorf" || full == "errors.New"
+			}
+		}
+	}
+	return false
 }
